@@ -42,6 +42,9 @@ def main():
     pid = args.pid.upper()
     seed = int(os.environ.get("VERIF_SEED", "1") or "1")
 
+    import warnings
+
+    warnings.filterwarnings("ignore")
     from importlib import import_module
     from vlib import core, jsonable
 
